@@ -1,7 +1,7 @@
 #!/usr/bin/env python3
 """Runs registered checks against a seeded change, in a scratch copy (never in /repo or /verif):
 
-  tools/seedtest.py <patch.diff> <PROP> [<PROP> ...] [--tier quick] [--seed N] [--tests]
+  tools/seedtest.py <patch.diff> <PROP> [<PROP> ...] [--tier quick] [--seed N] [--tests] [--scratch NAME]
 
   * copies /repo (working tree, without target/.git) to /root/scratch-seed/repo and applies the patch there (patch -p1);
   * with --tests: runs the repository's test-suite there (guard off) and prints the pass/fail counts;
@@ -14,6 +14,7 @@ SCR = "/root/scratch-seed"
 def sh(cmd, cwd=None, env=None):
     return subprocess.run(cmd, shell=True, text=True, stdout=subprocess.PIPE, stderr=subprocess.STDOUT, cwd=cwd, env=env)
 def main():
+    global SCR
     a = sys.argv[1:]
     if a and a[0] == "clean":
         shutil.rmtree(SCR, ignore_errors=True); return
@@ -23,6 +24,7 @@ def main():
         if a[i] == "--tier": tier = a[i+1]; i += 2
         elif a[i] == "--seed": seed = a[i+1]; i += 2
         elif a[i] == "--tests": tests = True; i += 1
+        elif a[i] == "--scratch": SCR = "/root/scratch-seed-" + a[i+1]; i += 2
         else: props.append(a[i]); i += 1
     os.makedirs(SCR, exist_ok=True)
     sh(f"rsync -a --delete --exclude target --exclude .git /repo/ {SCR}/repo/")
